@@ -79,10 +79,13 @@ async fn resolve_and_build_response(args: ListenArgs, query: Message) -> Message
                 .with_label_values(question_labels)
                 .start_timer();
 
-            // lock zones here, rather than where they're used in the resolver,
-            // so that this whole request sees a consistent version of the zones
-            // even if they get updated in the middle of processing.
-            let zones = args.zones_lock.read().await;
+            // take the zones here, rather than where they're used in the
+            // resolver, so that this whole request sees a consistent version
+            // of the zones even if they get updated in the middle of
+            // processing.  The lock is only held to take the reference: a
+            // request waiting for an upstream nameserver must not hold up a
+            // reload, and with it every request arriving after the reload.
+            let zones = Arc::clone(&*args.zones_lock.read().await);
 
             let (metrics, answer) = resolve(
                 query.header.recursion_desired && response.header.recursion_available,
@@ -310,7 +313,7 @@ struct ListenArgs {
     protocol_mode: ProtocolMode,
     upstream_dns_port: u16,
     forward_address: Option<SocketAddr>,
-    zones_lock: Arc<RwLock<Zones>>,
+    zones_lock: Arc<RwLock<Arc<Zones>>>,
     cache: SharedCache,
 }
 
@@ -326,7 +329,7 @@ async fn prune_cache_task(cache: SharedCache) {
 }
 
 /// Reload hosts and zones, and replace the value in the `RwLock`.
-async fn reload_task(zones_lock: Arc<RwLock<Zones>>, args: Args) {
+async fn reload_task(zones_lock: Arc<RwLock<Arc<Zones>>>, args: Args) {
     let mut stream = match signal(SignalKind::user_defined1()) {
         Ok(s) => s,
         Err(error) => {
@@ -350,7 +353,7 @@ async fn reload_task(zones_lock: Arc<RwLock<Zones>>, args: Args) {
         .await
         {
             let mut lock = zones_lock.write().await;
-            *lock = zones;
+            *lock = Arc::new(zones);
             tracing::error_span!("SIGUSR1").in_scope(
                 || tracing::info!(duration_seconds = %start.elapsed().as_secs_f64(), "done - success"),
             );
@@ -536,7 +539,7 @@ async fn main() {
         protocol_mode: args.protocol_mode,
         upstream_dns_port: args.upstream_dns_port,
         forward_address: args.forward_address,
-        zones_lock: Arc::new(RwLock::new(zones)),
+        zones_lock: Arc::new(RwLock::new(Arc::new(zones))),
         cache: SharedCache::with_desired_size(std::cmp::max(1, args.cache_size)),
     };
 
